@@ -79,6 +79,7 @@ let rec cstmt_of (t : Sexp.t) : cstmt =
   | L [A "sraw"; s] -> SRaw (xs (atom s))
   | L (A "sprint" :: e :: ds) -> SPrint (cexpr_of e, List.map pdir_of ds)
   | L [A "slet"; nm; e] -> SLet (xs (atom nm), cexpr_of e)
+  | L [A "sletc"; nm; body] -> SLetC (xs (atom nm), cblk_of body)
   | L [A "sif"; c; th; rest] -> SIf (cexpr_of c, cblk_of th, celse_of rest)
   | L [A "sswitch"; v; cs] -> SSwitch (cexpr_of v, ccases_of cs)
   | _ -> failwith ("bad cstmt " ^ to_string t)
